@@ -184,6 +184,39 @@ func c19Run(c *Ctx) {
 	})
 	c.Count("T_trees", st.Executions)
 	Flags{}.Apply()
+	// --- lines close to the reader's line limit: pass 1 replaces short literals by longer placeholders, so its
+	// output line can exceed what pass 2 is able to read
+	if c.Shard == 0 {
+		for _, n := range []int{1000, 6000, 8000} {
+			var sb strings.Builder
+			sb.WriteString(`{"t":{"$date":"2024-05-01T10:00:00.123+00:00"},"s":"I","c":"COMMAND","id":51803,"ctx":"conn1","msg":"Slow query","attr":{"ns":"d.c","command":{"find":"c","filter":{"f":{"$in":[`)
+			for i := 0; i < n; i++ {
+				if i > 0 {
+					sb.WriteByte(',')
+				}
+				sb.WriteString(`"ab"`)
+			}
+			sb.WriteString(`]}},"$db":"d"}}}`)
+			line := sb.String()
+			Flags{}.Apply()
+			var o1, o2 strings.Builder
+			e1 := ProcessMongoLogFileFromReader(strings.NewReader(line+"\n"), &o1, nil)
+			c.Eval(1)
+			c.Distinct(line)
+			if e1 != nil {
+				continue // the input itself is over the limit
+			}
+			e2 := ProcessMongoLogFileFromReader(strings.NewReader(o1.String()), &o2, nil)
+			c.Eval(1)
+			if e2 != nil || o2.String() != o1.String() {
+				c.Outcome("differs")
+				c.Violate("refix-stream:line-grows-past-reader-limit", fmt.Sprintf("an input line of %d bytes (within the reader's limit) is redacted to a line of %d bytes; feeding that output back fails: %v (%d bytes emitted)", len(line), o1.Len()-1, e2, o2.Len()), int64(n),
+					map[string]any{"kind": "near-limit-line", "elements": n, "input_bytes": len(line), "pass1_bytes": o1.Len()}, nil)
+			} else {
+				c.Outcome("fixed-point")
+			}
+		}
+	}
 	// --- the real CLI, file in → file out → file in again (each worker its own share of the flag sets)
 	c19CLI(c, "G", corpus, fs)
 	c19CLI(c, "T", tcorpus, tf)
